@@ -98,7 +98,8 @@ func (s *Service) Subscribe(ctx context.Context,
 		for slot, slotInfo := range subscriptionInfo {
 			if slot <= currentSlot {
 				log.Trace().Uint64("current_slot", uint64(currentSlot)).Uint64("duty_slot", uint64(slot)).Msg("Subscription not for a future slot; ignoring")
-				return
+				// Only this slot is ignored; slots of the same epoch that are still in the future must be subscribed.
+				continue
 			}
 			for committeeIndex, info := range slotInfo {
 				subscriptions = append(subscriptions, &apiv1.BeaconCommitteeSubscription{
